@@ -60,15 +60,16 @@ type caseRun struct {
 	csize   int
 	desc    string
 	gcSleep bool
-	// shadow of the NEO cache's votesChanged flag on A and B (from the NEO events of HALTed transactions),
-	// used only to decide whether a divergence has the shape of the known finding
-	vcA, vcB   bool
-	pendingBlk bool // a candidate's account was (un)blocked since A last recomputed the committee
-	knownShape bool
-	failed     bool
-	digest     hash.Hash // of everything replica A showed, block by block
-	gov        bool      // governance-focused profile: elected committee, quiet epochs, block/unblock of candidates
-	lastCmt    string
+	// shadow of the NEO cache's votesChanged flag on A (from the NEO events of HALTed transactions and successful
+	// block/unblock): only feeds the distribution counters "epoch ends with / without committee recomputation"
+	vcA bool
+	// shadow of the cached whitelisted fees on A and B (an entry that exists is never updated by
+	// setWhitelistFeeContract, policy.go:966-969; InitializeCache reloads it from storage)
+	wlStore, wlA, wlB map[string]int64
+	failed            bool
+	digest            hash.Hash // of everything replica A showed, block by block
+	gov               bool      // governance-focused profile: elected committee, quiet epochs, block/unblock of candidates
+	lastCmt           string
 }
 
 // childMode: this process only re-runs one case for its parent (second-process replay) and leaves the
@@ -161,7 +162,19 @@ func (c *caseRun) run() {
 	}
 	c.csize = csize
 	c.net = chainx.NewNet(r, csize, vcount, extra)
+	allHFs := script == nil && r.Chance(1, 2)
+	if allHFs {
+		o.Count("hardforks:all-known")
+	} else {
+		o.Count("hardforks:stable")
+	}
 	proto := func(cfg *config.Blockchain) {
+		if allHFs { // every hardfork this snapshot knows, not only the stable ones NewBlockchain enables by default
+			cfg.Hardforks = map[string]uint32{}
+			for _, hf := range config.Hardforks {
+				cfg.Hardforks[hf.String()] = 0
+			}
+		}
 		cfg.StateRootInHeader = srInHeader
 		cfg.MaxTraceableBlocks = mtb
 		cfg.Genesis.MaxTraceableBlocks = mtb
@@ -281,6 +294,10 @@ func (c *caseRun) run() {
 			txs[i] = p.tx
 		}
 		blk := w.exec.NewUnsignedBlock(c.tb, txs...)
+		if script == nil && r.Chance(1, 25) {
+			blk.Timestamp += 366 * 24 * 3600 * 1000 // a year of block time passes (Policy.recoverFund lock period)
+			o.Count("time-jump-blocks")
+		}
 		blk.PrimaryIndex = byte(r.Intn(vcount))
 		blk.Nonce = r.U64()
 		w.exec.SignBlock(blk)
@@ -349,7 +366,7 @@ func (c *caseRun) run() {
 		}
 		o.Count("blocks")
 		if int(h)%csize == 0 { // NEO.OnPersist of the first block of an epoch
-			c.vcA, c.vcB = false, false
+			c.vcA = false
 		}
 		// results of the transactions (from A) and op lines
 		for _, p := range ops {
@@ -361,6 +378,13 @@ func (c *caseRun) run() {
 			o.Count("op:" + p.kind)
 			o.Count("result:" + p.result)
 			line, obs := p.line, p.result
+			if p.kind == "policy.recoverFund.neo" {
+				if p.result == "fault" {
+					line += " pre=no"
+				} else {
+					line += " pre=ok"
+				}
+			}
 			if isOutOfGas(&aers[0]) {
 				o.Count("result:out-of-gas")
 				if p.model {
@@ -373,22 +397,21 @@ func (c *caseRun) run() {
 			o.Line(line, obs)
 			c.afterOp(p, &aers[0])
 			if neoVotesEvent(&aers[0]) {
-				c.vcA, c.vcB = true, true
+				c.vcA = true
 			}
-			if p.blkCand && p.result == "halt true" {
-				c.pendingBlk = true
-				o.Count("candidate-account-(un)blocked")
+			c.noteWhitelist(p)
+			if (p.kind == "policy.block" || p.kind == "policy.unblock") && p.result == "halt true" {
+				c.vcA = true // markCommitteeOutdated (fix d4da6a2)
+				if p.blkCand {
+					o.Count("candidate-account-(un)blocked")
+				}
 			}
 		}
 		if rec.epochLast { // NEO.PostPersist of the last block of an epoch
 			if c.vcA {
-				c.pendingBlk = false
 				o.Count("A.epoch-end-recompute")
 			} else {
 				o.Count("A.epoch-end-no-recompute")
-				if c.vcB && c.pendingBlk {
-					c.knownShape = true
-				}
 			}
 		}
 		c.recs = append(c.recs, rec)
@@ -470,13 +493,55 @@ func (c *caseRun) run() {
 	}
 }
 
-// noteRestart: B is restarted before block h (at height h-1). InitializeCache sets votesChanged and, when
-// h is the first block of an epoch, recomputes the next committee from storage.
+// noteRestart: B is restarted before block h (at height h-1): its caches are rebuilt from storage.
 func (c *caseRun) noteRestart(h uint32) {
-	c.vcB = true
-	if int(h)%c.csize == 0 && !c.vcA && c.pendingBlk {
-		c.knownShape = true
+	c.wlB = map[string]int64{}
+	for k, v := range c.wlStore {
+		c.wlB[k] = v
 	}
+}
+
+// noteWhitelist keeps the shadow of the whitelisted-fee caches up to date.
+func (c *caseRun) noteWhitelist(p *op) {
+	if c.wlStore == nil {
+		c.wlStore, c.wlA, c.wlB = map[string]int64{}, map[string]int64{}, map[string]int64{}
+	}
+	switch {
+	case p.wlKey != "" && p.result == "halt":
+		if p.wlDel {
+			delete(c.wlStore, p.wlKey)
+			delete(c.wlA, p.wlKey)
+			delete(c.wlB, p.wlKey)
+			return
+		}
+		c.wlStore[p.wlKey] = p.wlFee
+		for _, m := range []map[string]int64{c.wlA, c.wlB} {
+			if _, ok := m[p.wlKey]; !ok {
+				m[p.wlKey] = p.wlFee
+			}
+		}
+	case p.kind == "kv.destroy" && p.result == "halt":
+		f := strings.Fields(p.line)
+		tok := f[len(f)-1] + " "
+		for _, m := range []map[string]int64{c.wlStore, c.wlA, c.wlB} {
+			for k := range m {
+				if strings.HasPrefix(k, tok) {
+					delete(m, k)
+				}
+			}
+		}
+	}
+}
+
+// whitelistCachesDiffer: the shape of the finding "setWhitelistFeeContract does not update an existing cache
+// entry": the two replicas' cached fee of some method differ (B reloaded it from storage at a restart).
+func (c *caseRun) whitelistCachesDiffer() bool {
+	for k, v := range c.wlA {
+		if vb, ok := c.wlB[k]; ok && vb != v {
+			return true
+		}
+	}
+	return false
 }
 
 // neoVotesEvent: did the transaction emit a NEO event that goes with votesChanged=true?
@@ -593,14 +658,9 @@ func (c *caseRun) epochStart(h uint32) uint32 { return h - h%uint32(c.csize) }
 func (c *caseRun) diverged(h uint32, name, va, vb string) {
 	c.failed = true
 	cls := classOf(name)
-	// Shape of the finding fixed by d4da6a2 (DESIGN §6 item 13; a divergence of this shape is a regression of
-	// that fix and is no longer listed as known): at the end of some epoch replica A did not recompute the
-	// next committee (no vote-changing NEO event in the epoch) while B did (it had been restarted), and a
-	// registered candidate's own account was blocked/unblocked since A's last recomputation.
-	known := c.knownShape && (cls == "committee" || cls == "root" || cls == "storage" || cls == "aer" || cls == "balances" || cls == "invoke-getters" || cls == "enrollments" || cls == "addblock")
 	key := ""
-	if known {
-		key = "neo-committee-blocked-candidate-restart"
+	if c.whitelistCachesDiffer() {
+		key = "policy-whitelist-fee-update-restart"
 	} else {
 		// generic shape: first diverging class, whether B restarted in the last two epochs, and the kinds of
 		// operations in that window
@@ -747,9 +807,9 @@ func (c *caseRun) genOp() *op {
 	w, r := c.w, c.r
 	nk := w.nkeys
 	reg := w.registeredKeys()
-	weights := []int{14, 4, 14, 8, 3, 6, 8, 4, 3, 3, 3, 8, 2, 1, 3, 1}
+	weights := []int{14, 4, 14, 8, 3, 6, 8, 4, 3, 5, 3, 8, 2, 1, 3, 1, 6, 1}
 	if c.gov {
-		weights = []int{3, 2, 5, 3, 2, 5, 16, 9, 1, 2, 1, 3, 1, 1, 1, 1}
+		weights = []int{3, 2, 5, 3, 2, 5, 16, 9, 1, 2, 1, 3, 1, 1, 1, 1, 1, 1}
 	}
 	switch r.Weighted(weights) {
 	case 0: // NEO transfer (incl. self / zero / too much / wrong signer)
@@ -845,9 +905,27 @@ func (c *caseRun) genOp() *op {
 		sort.Ints(l)
 		return w.opDesignate(roles[r.Intn(len(roles))], l)
 	case 9:
-		which := r.Intn(6)
-		v := []int64{int64(1 + r.Intn(10*100000000)), int64(1 + r.Intn(2000_0000_0000)), int64(1 + r.Intn(8)), int64(1 + r.Intn(1_0000_0000)), int64(r.Intn(1_0000_0000)), int64(1 + r.Intn(30000))}[which]
+		if r.Chance(1, 2) {
+			return w.opPolicyMisc(r.Intn(5))
+		}
+		which := r.Intn(4)
+		v := []int64{int64(1 + r.Intn(10*100000000)), int64(1 + r.Intn(2000_0000_0000)), int64(1 + r.Intn(8)), int64(1 + r.Intn(1_0000_0000))}[which]
 		return w.opNativeSetting(which, v)
+	case 16: // whitelisted fees of generated contracts
+		for d := 0; d < len(w.slots); d++ {
+			si := (r.Intn(len(w.slots)) + d) % len(w.slots)
+			if w.slots[si].deployed {
+				return w.opWhitelist(si, r.Chance(1, 5))
+			}
+		}
+		return w.opDeploy(r.Intn(len(w.slots)))
+	case 17: // recoverFund of a blocked account
+		for i := 0; i < nk; i++ {
+			j := (i + r.Intn(nk)) % nk
+			if w.isBlocked(c.net.Account(j)) {
+				return w.opRecoverFund(c.net.Account(j))
+			}
+		}
 	case 10:
 		si := r.Intn(len(w.slots))
 		if !w.slots[si].deployed {
